@@ -5,10 +5,12 @@ EXTENDS Units, Json, IOUtils
 CaseLog == ndJsonDeserialize(IOEnv.CASES)
 VARIABLE i
 Init == i = 1
-Result(c) == IF c.kind = "measure" THEN [id |-> c.id, known |-> TRUE, factor |-> Factor(c.sys, c.m), offset |-> Offset(c.sys, c.m)]
+UnitResult(c) == IF c.kind = "measure" THEN [id |-> c.id, known |-> TRUE, factor |-> Factor(c.sys, c.m), offset |-> Offset(c.sys, c.m)]
              ELSE IF KnownNames(c.num) /\ KnownNames(c.den)
-                  THEN [id |-> c.id, known |-> TRUE, factor |-> CompositeFactor(c.sys, c.num, c.den), offset |-> Q(0, 1)]
+                  THEN [id |-> c.id, known |-> TRUE, factor |-> CompositeFactor(c.sys, c.num, c.den),
+                        \* a dimension string that is just the relative temperature keeps its offset
+                        offset |-> IF c.den = <<>> /\ Len(c.num) = 1 THEN Offset(c.sys, NamedDim(c.num[1])) ELSE Q(0, 1)]
                   ELSE [id |-> c.id, known |-> FALSE]
-Next == i <= Len(CaseLog) /\ PrintT(<<"GEN", ToJson(Result(CaseLog[i]))>>) /\ i' = i + 1
+Next == i <= Len(CaseLog) /\ PrintT(<<"GEN", ToJson(UnitResult(CaseLog[i]))>>) /\ i' = i + 1
 Spec == Init /\ [][Next]_i
 =============================================================================
